@@ -66,3 +66,53 @@ Proof.
   - cbn. repeat split; repeat constructor; vm_compute; reflexivity.
   - repeat constructor; vm_compute; congruence.
 Qed.
+
+(* ------------------------------------------------------------------------------------------------------------------
+   The drop rule as tableCompactionBuilder really runs it (model Lsm/Builder.v: the run loop with hasLastUkey / lastUkey /
+   lastSeq, the base-level cursors, table rotation, and compactionTransact's retries after transient errors with the
+   builder's and the compaction's snapshot restored and the first snapIter entries of a fresh iterator skipped).
+   ------------------------------------------------------------------------------------------------------------------ *)
+From GL Require Import Lsm.Pick Lsm.Builder Lsm.BuilderBase Lsm.BuilderProofs Lsm.BuilderCuts Lsm.BuilderReads.
+
+(* Whatever transient failures hit the attempts (iterator, table creation/append, flush, cleanup; any positions, any
+   number of attempts), the tables recorded when compactionTransact returns answer, for every user key and every sequence
+   number s >= minSeq, exactly as the merged inputs did: no kept entry is lost or duplicated at a resume point, nothing
+   that a live snapshot needs is dropped. *)
+Theorem C03_builder_retry_preserves_reads : forall c, comparer_ok c -> forall p, kparams_ok p ->
+  forall sz gp maxgp deeper, Forall (lvl_ok c p) deeper ->
+  forall minSeq, (minSeq < keyMaxSeq p)%N -> forall strict tableSize tsize es os s',
+  ssorted c es -> kinds_ok p es ->
+  transact c p sz gp maxgp deeper minSeq strict tableSize tsize os (map IGood es) (bst0 deeper) = (s', TDone) ->
+  forall k s, (minSeq <= s)%N ->
+  CompactProofs.res p (newest c k s (concat (fin s')) None) = CompactProofs.res p (newest c k s es None).
+Proof. exact builder_preserves_reads. Qed.
+Print Assumptions C03_builder_retry_preserves_reads.
+
+(* ... and the whole compaction (I = entries of the input tables, O = every other stored entry) preserves reads at every
+   s >= minSeq, with the installed tables in place of the abstract drop_run of C03_compaction_preserves. *)
+Theorem C03_builder_compaction_preserves : forall c, comparer_ok c -> forall p, kparams_ok p ->
+  forall sz gp maxgp deeper, Forall (lvl_ok c p) deeper ->
+  forall minSeq, (minSeq < keyMaxSeq p)%N -> forall strict tableSize tsize I O os s',
+  kinds_ok p I -> NoDup (map keyseq I) -> uniq_in (I ++ O) ->
+  (forall o i, In o O -> In i I -> e_uk o = e_uk i ->
+     (e_seq i < e_seq o)%N \/ ((e_seq o < e_seq i)%N /\ is_base c deeper (e_uk i) = false)) ->
+  transact c p sz gp maxgp deeper minSeq strict tableSize tsize os (map IGood (isort c I)) (bst0 deeper) = (s', TDone) ->
+  forall k s, (minSeq <= s)%N ->
+  History.res p (newest c k s (concat (fin s') ++ O) None) = History.res p (newest c k s (I ++ O) None).
+Proof. exact builder_compaction_preserves. Qed.
+Print Assumptions C03_builder_compaction_preserves.
+
+(* Non-vacuity: the inputs of C03_nonvacuous, a snapshot at 6 (minSeq = 6: everything is kept) and minSeq = 9 at base level
+   (only 1@9 survives); tables hold one entry's worth of bytes; the first attempt fails in the flush at the first
+   user-key boundary, the second in appendKV right after the snapshot taken there, the third succeeds. *)
+Example C03_builder_nonvacuous :
+  let fl := {| o_closed := false; o_next := fun _ => false; o_append := fun _ => AOk; o_flush := Nat.eqb 2;
+               o_cleanup := false; o_perr := false; o_closed_sel := false |} in
+  let ap := {| o_closed := false; o_next := fun _ => false; o_append := fun i => if Nat.eqb i 2 then AWrite else AOk;
+               o_flush := fun _ => false; o_cleanup := true; o_perr := false; o_closed_sel := false |} in
+  let size := fun l : list item => (10 * N.of_nat (length l))%N in
+  (exists s', transact bytewise kp (fun _ => 100%N) [] 1000 [] 6 true 10 size [fl; ap; o_ok] (map IGood ex3_in) (bst0 [])
+              = (s', TDone) /\ fin s' = [[ex3 1 9 1 90; ex3 1 5 1 50]; [ex3 2 8 0 0; ex3 2 3 1 30]] /\ drop s' = 0%N) /\
+  (exists s', transact bytewise kp (fun _ => 100%N) [] 1000 [] 9 true 10 size [fl; ap; o_ok] (map IGood ex3_in) (bst0 [])
+              = (s', TDone) /\ fin s' = [[ex3 1 9 1 90]] /\ drop s' = 3%N).
+Proof. split; eexists; (split; [vm_compute; reflexivity|]); vm_compute; split; reflexivity. Qed.
